@@ -11,9 +11,12 @@ import (
 	"math/rand"
 	"os"
 	"path/filepath"
+	"runtime"
 	"sort"
 	"strconv"
+	"strings"
 	"sync"
+	"sync/atomic"
 	"time"
 
 	"github.com/LemoFoundationLtd/lemochain-core/chain/account"
@@ -22,6 +25,7 @@ import (
 	"github.com/LemoFoundationLtd/lemochain-core/chain/types"
 	"github.com/LemoFoundationLtd/lemochain-core/common"
 	"github.com/LemoFoundationLtd/lemochain-core/network"
+	"github.com/LemoFoundationLtd/lemochain-core/store"
 
 	"verifharness/engine"
 	"verifharness/node"
@@ -53,6 +57,7 @@ func drive(args []string) error {
 	seed := fs.Int64("seed", 1, "")
 	rounds := fs.Int("rounds", 10, "")
 	gated := fs.Int("gated", 4, "gated rounds: a mining request is made to queue on chainLock behind an InsertBlock that moves the head")
+	stables := fs.Int("stables", 3, "rounds in which a whole fork becomes stable at once and peers' confirms for its blocks arrive while the background goroutine writes this node's own")
 	dups := fs.Int("dups", 6, "rounds in which two confirm packets carrying the two encodings of ONE deputy's signature are inserted at the same instant (5 deputies)")
 	if err := fs.Parse(args); err != nil {
 		return err
@@ -92,6 +97,11 @@ func drive(args []string) error {
 	}
 	for g := 0; g < *dups; g++ {
 		if err := dupRound(dir, g, emit); err != nil {
+			return err
+		}
+	}
+	for g := 0; g < *stables; g++ {
+		if err := stableRound(dir, g, emit); err != nil {
 			return err
 		}
 	}
@@ -284,7 +294,12 @@ func drive(args []string) error {
 		}
 		totalEvents += len(evs)
 		final := map[string]interface{}{"ev": "Final", "beh": r}
+		// every confirm the node had published BEFORE this reading was stored before it was published
+		emu.Lock()
+		published := append([]*network.BlockConfirmData(nil), emits...)
+		emu.Unlock()
 		project(final)
+		final["own_missing"] = ownMissing(published, final["signers"].(map[string][]int), x.get)
 		emit(final)
 		emu.Lock()
 		for _, c := range emits {
@@ -422,6 +437,274 @@ func gatedRound(dir string, g int, emit func(map[string]interface{})) error {
 		fl["beh"] = 1000 + g
 		emit(fl)
 	}
+	return nil
+}
+
+// gid is the id of the calling goroutine.
+func gid() int64 {
+	var buf [64]byte
+	n := runtime.Stack(buf[:], false)
+	f := strings.Fields(string(buf[:n]))
+	if len(f) < 2 {
+		return -1
+	}
+	id, _ := strconv.ParseInt(f[1], 10, 64)
+	return id
+}
+
+// ownMissing: blocks the node still holds for which it published its own confirm that the stored block does not carry.
+func ownMissing(published []*network.BlockConfirmData, signers map[string][]int, idOf func(common.Hash) (int, bool)) []int {
+	miss := []int{}
+	for _, c := range published {
+		id, ok := idOf(c.Hash)
+		if !ok {
+			continue
+		}
+		sg, held := signers[strconv.Itoa(id)]
+		if !held {
+			continue
+		}
+		has := false
+		for _, q := range sg {
+			if q == self {
+				has = true
+			}
+		}
+		if !has {
+			miss = append(miss, id)
+		}
+	}
+	sort.Ints(miss)
+	return miss
+}
+
+// stableRound: five deputies.  The node first follows fork A (6 blocks), then receives the longer fork B; B's tip arrives
+// with a quorum of confirms, so B1..B7 become stable at once, most of them without this node's confirm: the engine's
+// background goroutine (batchConfirmStable, outside chainLock) now signs them one by one and writes its confirms, while
+// two network goroutines deliver other deputies' confirms for the very same blocks.  In every sequential order all of
+// these confirms end up stored.
+func stableRound(dir string, g int, emit func(map[string]interface{})) error {
+	const nd5, la, lb = 5, 24, 25
+	w := node.NewWorld(nd5, 1000)
+	w.GenesisTime = uint32(time.Now().Unix()) - 400
+	builder := w.NewNode(filepath.Join(dir, fmt.Sprintf("sbuilder%d", g)))
+	defer builder.Destroy()
+	n := w.NewNode(filepath.Join(dir, fmt.Sprintf("snut%d", g)))
+	defer n.Destroy()
+	byHash := map[common.Hash]int{n.Genesis.Hash(): 0}
+	var parent, miner []int
+	var blocks []*types.Block
+	add := func(p *types.Block, rank int, extra string) (*types.Block, error) {
+		b, _, err := builder.Build(p, rank, 0, nil, extra)
+		if err != nil {
+			return nil, err
+		}
+		byHash[b.Hash()] = len(parent) + 1
+		parent, miner = append(parent, byHash[p.Hash()]), append(miner, rank+1)
+		blocks = append(blocks, b)
+		return b, nil
+	}
+	tip := builder.Genesis
+	var err error
+	for i := 0; i < la; i++ {
+		if tip, err = add(tip, i%nd5, fmt.Sprintf("s%d-a%d", g, i)); err != nil {
+			return fmt.Errorf("stable round build A: %v", err)
+		}
+	}
+	tip = builder.Genesis
+	for i := 0; i < lb; i++ {
+		if tip, err = add(tip, (i+1)%nd5, fmt.Sprintf("s%d-b%d", g, i)); err != nil {
+			return fmt.Errorf("stable round build B: %v", err)
+		}
+	}
+	var evs []map[string]interface{}
+	project := func(fl map[string]interface{}) {
+		stable, head := n.DP.StableBlock(), n.DP.CurrentBlock()
+		unconf, chain := []int{}, []int{}
+		signers := map[string][]int{}
+		sig := func(b *types.Block) {
+			rs, _ := w.Signers(b)
+			o := []int{}
+			for _, q := range rs {
+				o = append(o, q+1)
+			}
+			sort.Ints(o)
+			signers[strconv.Itoa(byHash[b.Hash()])] = o
+		}
+		n.DB.IterateUnConfirms(func(b *types.Block) {
+			unconf = append(unconf, byHash[b.Hash()])
+			sig(b)
+		})
+		sort.Ints(unconf)
+		for h := uint32(1); h <= stable.Height(); h++ {
+			if b, err := n.DB.GetBlockByHeight(h); err == nil {
+				chain = append(chain, byHash[b.Hash()])
+				sig(b)
+			}
+		}
+		fl["stable"], fl["head"] = byHash[stable.Hash()], byHash[head.Hash()]
+		fl["unconf"], fl["chain"], fl["new"], fl["signers"] = unconf, chain, []map[string]int{}, signers
+	}
+	consensus.VerifEngineHook = func(dp *consensus.DPoVP, ev consensus.VerifEngineEvent) {
+		if dp != n.DP {
+			return
+		}
+		fl := map[string]interface{}{"ev": ev.Op, "seq": ev.Seq, "b": -1, "exists": false}
+		if id, ok := byHash[ev.Hash]; ok {
+			fl["b"] = id
+		}
+		ex, _ := n.DB.IsExistByHash(ev.Hash)
+		fl["exists"] = ex
+		project(fl)
+		evs = append(evs, fl) // under chainLock
+	}
+	confirmCh := make(chan *network.BlockConfirmData, 1024)
+	sub := n.DP.SubscribeConfirm(confirmCh)
+	var published []*network.BlockConfirmData
+	var emu sync.Mutex
+	done := make(chan struct{})
+	go func() {
+		for {
+			select {
+			case c := <-confirmCh:
+				emu.Lock()
+				published = append(published, c)
+				emu.Unlock()
+			case <-done:
+				return
+			}
+		}
+	}()
+	for _, b := range blocks[:la+lb-1] {
+		n.DP.InsertBlock(node.Copy(b, nil))
+	}
+	last := blocks[la+lb-1]
+	var quorum []types.SignData
+	for r := 0; r < nd5 && len(quorum) < 3; r++ {
+		if r+1 != self && r+1 != miner[la+lb-1] {
+			quorum = append(quorum, node.Sign(last.Hash(), w.Keys[r], 0))
+		}
+	}
+	// rendezvous: the background goroutine signs through SignBlock, whose gate hook tells the network side which block it is
+	// about to write its confirm for: the peers' confirms for that very block are delivered at once.  The store's write
+	// gate then holds the background goroutine for 2 ms at its next file write - after it has read the stored block and
+	// added its confirm, before the new version is written.  With the store's lock held exclusively the peers simply
+	// wait; the gates change no data and their absence only loses the interleaving.
+	otherOf := func(i, k int) (int, bool) { // the k-th deputy that is neither this node nor the miner of block i
+		for r, c := 0, 0; r < nd5; r++ {
+			if r+1 == self || r+1 == miner[i] {
+				continue
+			}
+			if c == k {
+				return r, true
+			}
+			c++
+		}
+		return 0, false
+	}
+	deliver := func(i, k int) {
+		if r, ok := otherOf(i, k); ok {
+			b := blocks[i]
+			n.DP.InsertConfirms(b.Height(), b.Hash(), []types.SignData{node.Sign(b.Hash(), w.Keys[r], (g+i)%2)})
+		}
+	}
+	var wg sync.WaitGroup
+	var armed int32
+	var bgGoroutine, holds, sgates, met, bgBlock int64
+	var peerOf sync.Map // goroutine id -> index of the block whose confirm it delivers
+	mainBack := make(chan struct{})
+	consensus.VerifSignGate = func(h common.Hash) {
+		if atomic.LoadInt32(&armed) == 0 {
+			return
+		}
+		if id, ok := byHash[h]; ok && id-1 >= la && id-1 < la+lb-1 {
+			i := id - 1
+			select { // not before the InsertBlock that made the fork stable has returned and released chainLock
+			case <-mainBack:
+			case <-time.After(500 * time.Millisecond):
+			}
+			atomic.StoreInt64(&bgGoroutine, gid())
+			atomic.AddInt64(&sgates, 1)
+			atomic.StoreInt64(&bgBlock, int64(i))
+			wg.Add(1)
+			go func() { // a peer's confirm for the very block the background goroutine is about to extend
+				defer wg.Done()
+				peerOf.Store(gid(), i)
+				deliver(i, 0)
+			}()
+			// the peer must be past its own reads of the store (they take the store's lock exclusively) and busy recovering
+			// signers when this goroutine enters SetConfirms: 100..475 microseconds by block
+			time.Sleep(time.Duration(100+25*(i%16)) * time.Microsecond)
+		}
+	}
+	mainG := gid()
+	var hmu sync.Mutex
+	var waiting chan struct{} // non-nil while the background goroutine is held
+	store.VerifWriteGate = func(tag string) {
+		if tag != "wal.write" || atomic.LoadInt32(&armed) == 0 {
+			return
+		}
+		me := gid()
+		if g := atomic.LoadInt64(&bgGoroutine); g != 0 && g == me && atomic.CompareAndSwapInt64(&bgGoroutine, g, 0) {
+			// held until another goroutine (a peer's InsertConfirms) is about to write to the store as well, 15 ms at most
+			ch := make(chan struct{})
+			hmu.Lock()
+			waiting = ch
+			hmu.Unlock()
+			atomic.AddInt64(&holds, 1)
+			select {
+			case <-ch:
+				atomic.AddInt64(&met, 1)
+			case <-time.After(15 * time.Millisecond):
+			}
+			hmu.Lock()
+			waiting = nil
+			hmu.Unlock()
+			return
+		}
+		if b, ok := peerOf.Load(me); ok && me != mainG && int64(b.(int)) == atomic.LoadInt64(&bgBlock) {
+			hmu.Lock()
+			if waiting != nil {
+				close(waiting)
+				waiting = nil
+			}
+			hmu.Unlock()
+		}
+	}
+	defer func() { store.VerifWriteGate = nil }()
+	atomic.StoreInt32(&armed, 1)
+	n.DP.InsertBlock(node.Copy(last, quorum)) // B1..B25 become stable; the background goroutine starts signing
+	close(mainBack)
+	for t := 0; t < 200 && atomic.LoadInt64(&holds) < 19; t++ { // until the background goroutine has been through its blocks
+		time.Sleep(10 * time.Millisecond)
+	}
+	time.Sleep(60 * time.Millisecond)
+	atomic.StoreInt32(&armed, 0)
+	wg.Wait()
+	consensus.VerifSignGate = nil
+	for i := la; i < la+lb-1; i++ { // another deputy's confirm for every block, at leisure
+		deliver(i, 1)
+	}
+	time.Sleep(300 * time.Millisecond)
+	consensus.VerifEngineHook = nil
+	emu.Lock()
+	pub := append([]*network.BlockConfirmData(nil), published...)
+	emu.Unlock()
+	final := map[string]interface{}{"ev": "Final", "beh": 3000 + g}
+	project(final)
+	final["published"] = len(pub)
+	final["rendezvous"] = []int64{atomic.LoadInt64(&sgates), atomic.LoadInt64(&holds), atomic.LoadInt64(&met)}
+	final["own_missing"] = ownMissing(pub, final["signers"].(map[string][]int), func(h common.Hash) (int, bool) { id, ok := byHash[h]; return id, ok })
+	close(done)
+	sub.Unsubscribe()
+	sort.Slice(evs, func(i, j int) bool { return evs[i]["seq"].(uint64) < evs[j]["seq"].(uint64) })
+	emit(map[string]interface{}{"ev": "reset", "beh": 3000 + g, "nd": nd5, "self": self, "parent": parent, "miner": miner,
+		"stable": 0, "head": 0, "unconf": []int{}, "chain": []int{}})
+	for _, fl := range evs {
+		fl["beh"] = 3000 + g
+		emit(fl)
+	}
+	emit(final)
 	return nil
 }
 
